@@ -241,7 +241,7 @@ def corner_case(case, rec):
 
 
 def run(ctx):
-    n = ctx.share(1600 if ctx.quick else 50000)
+    n = ctx.share(12000 if ctx.quick else 120000)
     explore(ctx, cases(), body, n)
 
 
